@@ -566,9 +566,11 @@ def malformed_cases(seed, n, prefix="bad"):
             elif k == 2:
                 ops.append("DT " + hx(bad))
             elif k == 3:
-                ops.append("CS %s %s %d %s" % (hx(bad if rng.random() < 0.5 else sname("p", "n%d" % rng.randrange(3))),
-                                               hx(T if rng.random() < 0.5 else bad), rng.choice(ints),
+                nm = bad if rng.random() < 0.5 else sname("p", "n%d" % rng.randrange(3))
+                ops.append("CS %s %s %d %s" % (hx(nm), hx(T if rng.random() < 0.5 else bad), rng.choice(ints),
                                                rng.choice(["~", hx("ftp://x"), hx(""), hx("nothttp"), hx("http://ok")])))
+                # whatever was created must be usable (an out-of-range number must not poison it)
+                ops += ["PULL %s 1 1" % hx(nm), "GS " + hx(nm)]
             elif k == 4:
                 ops.append("GS " + hx(bad))
             elif k == 5:
@@ -729,7 +731,7 @@ def abandon_cases(ks=(1, 2, 3, 4, 6), ys=(0, 1, 4), fills=(0, 16, 24), prefix="a
     T, Sn, S2, S3 = tname("p", "t"), sname("p", "s"), sname("p", "new"), sname("p", "twin")
     out = []
     n = 0
-    for kind in ("CS", "DS", "PUB", "PUBS", "PULL", "ACK", "DT"):
+    for kind in ("CS", "DS", "DSW", "DST", "PUB", "PUBS", "PULL", "ACK", "DT"):
         for k in ks:
             for y in ys:
                 for fill in fills:
@@ -740,6 +742,16 @@ def abandon_cases(ks=(1, 2, 3, 4, 6), ys=(0, 1, 4), fills=(0, 16, 24), prefix="a
                         eq = "CS %s %s 10 ~" % (hx(S2), hx(T))
                     elif kind == "DS":
                         xc = "XC DS %d %d %d %s" % (k, y, fill, hx(Sn))
+                        eq = "DS " + hx(Sn)
+                    elif kind == "DSW":
+                        # DeleteSubscription abandoned while a stream and a blocked Pull wait on the subscription
+                        ops += ["SO 7 %s 10 0 10" % hx(Sn), "SR 7", "BG 800 PULL %s 1 0" % hx(Sn), "Q"]
+                        xc = "XC DS %d %d %d %s" % (k, y, fill, hx(Sn))
+                        eq = "DS " + hx(Sn)
+                    elif kind == "DST":
+                        # the same request with the TOPIC's mailbox saturated: the deletion waits for the topic
+                        ops += ["SO 7 %s 10 0 10" % hx(Sn), "SR 7"]
+                        xc = "XC DST %d %d %d %s %s" % (k, y, fill, hx(Sn), hx(T))
                         eq = "DS " + hx(Sn)
                     elif kind == "PUB":
                         xc = "XC PUB %d %d %d %s 7a" % (k, y, fill, hx(T))
@@ -759,6 +771,8 @@ def abandon_cases(ks=(1, 2, 3, 4, 6), ys=(0, 1, 4), fills=(0, 16, 24), prefix="a
                         eq = "DT " + hx(T)
                     idx = len(ops)
                     ops.append(xc)
+                    if kind in ("DSW", "DST"):
+                        ops += ["Q", "SR 7"] + (["JOIN 800"] if kind == "DSW" else [])
                     ops += ["Q", "GS " + hx(S2), "GS " + hx(Sn), "GT " + hx(T), "LTS %s 0 -" % hx(T), "LS %s 0 -" % hx("projects/p"),
                             "STATS " + hx(Sn), "STATS " + hx(S3), "STATS " + hx(S2), "PUB %s 1 70 0" % hx(T), "STATS " + hx(Sn), "STATS " + hx(S2),
                             "PULL %s 10 1" % hx(S2), "ADV %d" % (10200 * MS), "STATS " + hx(Sn), "PULL %s 10 1" % hx(Sn),
@@ -887,6 +901,11 @@ def push_cases(seed, n, with_hang=False, prefix="ps"):
             if r == 0 and rng.random() < 0.4:
                 ops.append("PUB %s 1 %s 0" % (T, hx("later")))
         ops += ["STATS " + P0, "PULL %s 10 1" % PL]
+        if i % 5 == 1:
+            # a second CreateSubscription for the existing PULL subscription, naming a push endpoint: rejected, and the
+            # subscription stays a pull subscription
+            ops += ["CS %s %s 10 %s" % (PL, T, hx("http://ep/e1")), "REG", "PUB %s 1 %s 0" % (T, hx("for-plain")),
+                    "ROUND", "ROUND", "STATS " + PL, "PULL %s 10 1" % PL]
         if i % 4 == 2:
             # the topic goes first, then the (orphaned) push subscription; both names come back, the subscription
             # without / with another endpoint: nothing may be POSTed for it to the old endpoint
@@ -1297,6 +1316,19 @@ def create_delete_race_cases(ks=range(0, 14), prefix="cdr"):
                 if variant:
                     ops += ["DS " + Racy]
             cases.append(("%s-k%d-v%d" % (prefix, k, variant), ops))
+        # the other way round: the subscription exists, its deletion is in flight (behind a large Publish in the
+        # topic's mailbox) and the name is created again meanwhile (tried three times in a row)
+        ops = ["SEED %d" % (k + 40), "CT " + T, "CS %s %s 10 ~" % (Kept, T)]
+        for r in range(2):
+            ops += ["CS %s %s 10 ~" % (Racy, T)]
+            ops += ["BG %d PUBN %s 600 78" % (950 + 10 * r + j, T) for j in range(8)]
+            ops += ["BG %d DS %s" % (901 + 3 * r, Racy), "YIELD %d" % k,
+                    "BG %d SEQ %s" % (902 + 3 * r, " ;; ".join(["CS %s %s 10 ~" % (Racy, T)] * 8)), "Q"]
+            ops += ["JOIN %d" % (950 + 10 * r + j) for j in range(8)]
+            ops += ["JOIN %d" % (901 + 3 * r), "JOIN %d" % (902 + 3 * r),
+                    "GS " + Racy, "GS " + Kept, "LTS %s 0 -" % T, "PUB %s 1 61 0" % T, "PULL %s 6000 1" % Kept,
+                    "PULL %s 6000 1" % Racy, "DS " + Racy, "GS " + Racy, "LTS %s 0 -" % T]
+        cases.append(("%s-k%d-recreate" % (prefix, k), ops))
     return cases
 
 
@@ -1343,4 +1375,20 @@ def stream_enum_cases(depth, prefix="se"):
             for k in seq:
                 ops += alpha[k] + ["SR 1", "STATS " + Sn]
             cases.append(("%s-%s" % (prefix, "-".join(seq)), with_drain(ops)))
+    return cases
+
+
+def big_ack_cases(prefix="bigack"):
+    """More than 1000 deliveries acknowledged with ONE request (unary and streaming), after one big pull or several
+    pulls; nothing may come back after the deadline."""
+    T, Sn, S2 = hx(tname("p", "t")), hx(sname("p", "s")), hx(sname("p", "other"))
+    cases = []
+    for n, pulls in ((1001, 1), (1500, 1), (1200, 3), (999, 1), (1000, 1)):
+        ops = ["SEED %d" % n, "CT " + T, "CS %s %s 10 ~" % (Sn, T), "CS %s %s 10 ~" % (S2, T), "PUBN %s %d 78" % (T, n)]
+        per = (n + pulls - 1) // pulls
+        ops += ["PULL %s %d 1" % (Sn, max(per, 1001) if pulls == 1 else per)] * pulls
+        ops += ["ADV %d" % (1000 * MS), "ACK %s %d %s" % (Sn, n, " ".join("^%d" % k for k in range(n))),
+                "STATS " + Sn, "STATS " + S2, "ADV %d" % (10200 * MS), "STATS " + Sn, "PULL %s 2000 1" % Sn,
+                "ADV %d" % (10200 * MS), "PULL %s 2000 1" % Sn, "STATS " + S2]
+        cases.append(("%s-%d-%d" % (prefix, n, pulls), ops))
     return cases
